@@ -12,7 +12,7 @@
 (*       mutations, then Accept / Link / Use step through the load;         *)
 (*       invariant AcceptedImpliesUsable0.                                  *)
 (***************************************************************************)
-EXTENDS Meta, Export
+EXTENDS Meta, Export, TLCExt
 \* TLC orders record fields by first occurrence in the root module: tags first.
 FieldOrder == [kind |-> 0, k |-> 0, mt |-> 0, some |-> 0, op |-> 0, mode |-> 0, name |-> 0, key |-> 0, m |-> 0,
                tok |-> 0, id |-> 0, stage |-> 0, v |-> 0, rep |-> 0, val |-> 0]
@@ -497,19 +497,34 @@ AllToks == UNION {Strs(x) \cup KeyStrs(x) : x \in AllDescs}
            \cup UNION {Strs(a) : a \in RetypeAtoms} \cup {"nowhere", "zz", "zz2"}
            \cup {ToString(i) : i \in {-5, -1, 0, 1, 2, 7, 1024}}
 
+\* A vector is written in pieces of at most ChunkLen characters, one line each:
+\*     <fp1>#<fp2>#<k>#<n>#"<piece k of n of the JSON text>"
+\* (fp1, fp2: two fingerprints of the record, together its identity).  TLC's workers append to the same file
+\* concurrently; an append of up to 8192 bytes is one write and stays whole, a longer line is written in several
+\* and gets interleaved with the lines of other workers - and whole ASTs are longer than that.
+ChunkLen == 3000
+EmitV(rec) ==
+    LET s  == ToJson(rec)
+        f1 == TLCFP(rec)
+        f2 == TLCFP(<<rec, "#">>)
+        nn == (Len(s) + ChunkLen - 1) \div ChunkLen
+    IN \A kk \in 1..nn :
+          CSVWrite("%1$s#%2$s#%3$s#%4$s#%5$s",
+                   <<f1, f2, kk, nn, SubSeq(s, (kk - 1) * ChunkLen + 1, IF kk * ChunkLen < Len(s) THEN kk * ChunkLen ELSE Len(s))>>,
+                   IOEnv.VERIF_OUT)
 XfSample == M({E(S("a"), N(5)), E(S("b"), N(-1)), E(S("c"), F(3)), E(S("d"), F(4)), E(S("e"), M({})),
                E(N(1024), L(<<B(TRUE), S("x"), N(0), Nil>>))})
 Export ==
-    CASE st = "bind" -> Emit([mode |-> "bind", toks |-> {TokAttr(s) : s \in AllToks},
+    CASE st = "bind" -> EmitV([mode |-> "bind", toks |-> {TokAttr(s) : s \in AllToks},
                               xf_sample |-> J(XfSample), xf |-> [x \in Transports |-> J(Xf(x, XfSample))],
                               int_bounds_nonneg |-> IntBoundsNonNeg, enum_keys |-> EnumKeys])
       [] pp # NoPick -> Emit([mode |-> "pick"])
       [] st = "desc" /\ Mode = "c09" ->
-            Emit([mode |-> "c09", target |-> tgt, ast |-> src, desc |-> J(d), minimal |-> J(MinimalTop(tgt, d)),
+            EmitV([mode |-> "c09", target |-> tgt, ast |-> src, desc |-> J(d), minimal |-> J(MinimalTop(tgt, d)),
                   usable |-> Usable(src), utoks |-> UnitTokens, builders |-> lab])
       [] st = "desc" /\ Mode = "c10" ->
             LET c == Classify(tgt, d) IN
-            Emit([mode |-> "c10", target |-> tgt, desc |-> J(d), labels |-> lab, grammar_free |-> (src = NoSrc),
+            EmitV([mode |-> "c10", target |-> tgt, desc |-> J(d), labels |-> lab, grammar_free |-> (src = NoSrc),
                   accepts |-> (c.stage # "accept"), stage |-> c.stage, cause |-> c.cause])
       [] OTHER -> TRUE
 =============================================================================
